@@ -232,9 +232,9 @@ def view(case, obs):
 
 
 def correspond(cases, obs, tag, tier):
-    one = [(i, view(c, o), o) for i, (c, o) in enumerate(zip(cases, obs)) if c.get('kind') not in ('sp', 'hist')]
-    hist = [(i, c, o) for i, (c, o) in enumerate(zip(cases, obs)) if c.get('kind') == 'hist']
-    sp = [(i, c, o) for i, (c, o) in enumerate(zip(cases, obs)) if c.get('kind') == 'sp']
+    one = [(i, view(c, o), o) for i, (c, o) in enumerate(zip(cases, obs)) if c.get('kind') not in ('sp', 'hist') and sc.k_comparable(c)]
+    hist = [(i, c, o) for i, (c, o) in enumerate(zip(cases, obs)) if c.get('kind') == 'hist' and sc.k_comparable(c)]
+    sp = [(i, c, o) for i, (c, o) in enumerate(zip(cases, obs)) if c.get('kind') == 'sp' and sc.k_comparable(c)]
     bad, errs = [], []
     if one:
         b, e = sc.correspond_solve_t([x[1] for x in one], [x[2] for x in one], tag + 'a')
